@@ -1,20 +1,31 @@
 #!/usr/bin/env python3
-"""replay.py <obligation | Cxx.*> -- build the replay crate against /repo's current tree and run the witness search(es).
-Prints the JSON lines of vx-replay.  Documents failures; never decides a property."""
+"""replay.py <obligation | Cxx.*> -- build the replay crate against the tree under test (/repo, or $VX_REPO for scratch trees) and run
+the witness search(es).  Prints the JSON lines of vx-replay.  Documents failures; never decides a property."""
 import os
+import shutil
 import subprocess
 import sys
 
 VERIF = os.path.dirname(os.path.dirname(os.path.abspath(__file__)))
-env = dict(os.environ, CARGO_NET_OFFLINE="true", CARGO_TARGET_DIR=os.path.join(VERIF, "build", "replay-target"))
+repo = os.environ.get("VX_REPO", "/repo")
+build = os.environ.get("VX_BUILD") or os.path.join(VERIF, "build")
+src = os.path.join(VERIF, "replay")
+if os.path.realpath(repo) != "/repo":
+    # scratch tree: private copy of the replay crate pointing at that tree
+    src2 = os.path.join(build, "replay-src")
+    shutil.rmtree(src2, ignore_errors=True)
+    shutil.copytree(src, src2)
+    p = os.path.join(src2, "Cargo.toml")
+    open(p, "w").write(open(p).read().replace('path = "/repo/varlink"', 'path = "%s/varlink"' % repo))
+    src = src2
+env = dict(os.environ, CARGO_NET_OFFLINE="true", CARGO_TARGET_DIR=os.path.join(build, "replay-target"))
 pat = sys.argv[1] if len(sys.argv) > 1 else "*"
 try:
-    b = subprocess.run(["cargo", "build", "--release", "--offline", "-q"], cwd=os.path.join(VERIF, "replay"), env=env,
-                       capture_output=True, text=True, timeout=600)
+    b = subprocess.run(["cargo", "build", "--release", "--offline", "-q"], cwd=src, env=env, capture_output=True, text=True, timeout=900)
     if b.returncode != 0:
         print('{"found": false, "replay_build_failed": true}')
         sys.exit(0)
-    r = subprocess.run([os.path.join(env["CARGO_TARGET_DIR"], "release", "vx-replay"), pat], capture_output=True, text=True, timeout=600)
+    r = subprocess.run([os.path.join(env["CARGO_TARGET_DIR"], "release", "vx-replay"), pat], capture_output=True, text=True, timeout=900)
     sys.stdout.write(r.stdout)
 except subprocess.TimeoutExpired:
     print('{"found": false, "replay_timeout": true}')
